@@ -75,6 +75,8 @@ var types = []typ{
 	{"map[string][]int", true, true}, {"{M}.In0", false, true}, {"{M}.Out0", false, true}, {"[]{M}.In0", false, true},
 	{"{I}.Data", true, true}, {"[]{I}.Data", true, true}, {"map[string]{I}.Data", true, true}, {"{M}.IdDossier", false, false},
 	{"[3]string", true, true}, {"bool", true, false},
+	// several instantiations of one generic struct
+	{"{M}.Page[{M}.In0]", false, true}, {"{M}.Page[{M}.Out0]", false, true}, {"{M}.Page[int]", false, true},
 }
 
 type gen struct {
@@ -532,6 +534,11 @@ type In0 struct {
 type Out0 struct {
 	X []int
 	D inner.Data
+}
+
+type Page[T any] struct {
+	Items []T
+	Total int
 }
 
 type controller struct{}
